@@ -739,12 +739,12 @@ class Message:
                 "Percent encoded strings in CoAP URIs need to be UTF-8 encoded"
             ) from e
 
-        self.remote = UndecidedRemote(parsed.scheme, parsed.netloc)
-
         try:
             _ = parsed.port
         except ValueError as e:
             raise error.MalformedUrlError("Port must be numeric") from e
+
+        self.remote = UndecidedRemote(parsed.scheme, parsed.netloc)
 
         is_ip_literal = parsed.netloc.startswith("[") or (
             parsed.hostname.count(".") == 3
